@@ -166,8 +166,8 @@ def run_case(case):
             calls.append(call)
     script = {"root_pkg": apigen.lib_root(api.info, api.options), "calls": calls}
     ev, rc, err = pipeline.run_runner("checks.c04", script, lib, timeout=300)
-    if ev is None or "runner_crash" in ev:
-        return {"verdict": "inconclusive", "why": f"runner rc={rc} {err[-600:]} {str(ev)[:1500]}"}
+    if ev is None or "runner_crash" in ev or "library_import_error" in ev:
+        return pipeline.runner_failed_result(ev, rc, err, api)
     methods = {m.name: m for _, _, m in refs.target_methods(req)}
     viol, counters, sigs = [], {}, set()
 
